@@ -43,7 +43,10 @@ def cases(draw):
             "lineup": draw(st.one_of(st.none(), st.none(), gen.lineup_spec(kinds=["uniform", "halton", "rseq", "best", "cors", "pso"],
                                                                           min_len=2, max_len=3, max_bs=3))),
             # a user-defined scheduler that post-processes, in place, the arrays update() hands it
-            "scribbling_scheduler": draw(st.integers(0, 4)) == 0}
+            "scribbling_scheduler": draw(st.integers(0, 4)) == 0,
+            # the public attribute is reassigned before some of the later calls (switched off, or another number of decimals)
+            "p_changes": draw(st.one_of(st.just({}), st.just({}), st.dictionaries(st.sampled_from(["1", "2", "3"]),
+                                                                                   st.one_of(st.none(), st.integers(0, 6)), max_size=2)))}
 
 
 def verdict(m, p):
@@ -76,6 +79,8 @@ def run_one(case, verbose, folder):
     for ci, n in enumerate(case["calls"]):
         if folder and ci in case.get("restore_before", []) and cal.current_batch_index > 0:
             cal = Calibrator.restore_from_checkpoint(folder, models.get("poly", 1))
+        if str(ci) in case.get("p_changes", {}):
+            cal.convergence_precision = case["p_changes"][str(ci)]
         before = cal.current_batch_index
         cal.calibrate(n)
         trace.append((cal.current_batch_index - before, cal.current_batch_index, cal.n_sampled_params, len(cal.losses_samp)))
@@ -91,7 +96,9 @@ def check_stop(ctx: Ctx, case):
     # reference model
     exp, amb, k, batch, stopped_early, later = [], False, 0, 0, False, False
     running = None
-    for n in case["calls"]:
+    for ci_, n in enumerate(case["calls"]):
+        if str(ci_) in case.get("p_changes", {}):
+            p = case["p_changes"][str(ci_)]
         ran = 0
         if running is not None and p is not None and verdict(running, p) == "stop":
             later = True
@@ -117,6 +124,7 @@ def check_stop(ctx: Ctx, case):
                                                                   "folder" if case["folder"] else "nofolder"] +
               (["line-up:" + "+".join(sorted({s_["kind"] for s_ in lineup_of(case)}))] if case.get("lineup") else []) +
               (["scribbling-scheduler"] if case.get("scribbling_scheduler") else []) +
+              (["precision-reassigned"] if case.get("p_changes") else []) +
               (["restored-between-calls"] if case["folder"] and case.get("restore_before") else []))
     if amb:
         ctx.exclude("running minimum within 1e-12 (relative) of the rounding boundary")
@@ -174,6 +182,7 @@ def after_fault_cases(draw):
     c["folder"], c["restore_before"] = False, []
     c["lineup"] = None
     c["scribbling_scheduler"] = False
+    c["p_changes"] = {}
     c["fail_at"] = draw(st.integers(0, 3))
     c["calls"] = [draw(st.integers(1, 4))] + draw(st.lists(st.integers(1, 5), min_size=1, max_size=3))
     return c
